@@ -22,8 +22,8 @@ import gen_alloc_sites  # noqa: E402
 LEVEL = "proof"
 MANIFEST = dict(
     category="proof",
-    text="Partial proof. Lean 4 theorems (XmpProps.C03: C03_finish_wf, C03_sequences, C03_finish_rc, C03_names, C03_nonneg, "
-         "C03_helpers_*) prove for ARBITRARY raw modules left behind by a format loader that whenever the common post-load path of "
+    text="Partial proof. Lean 4 theorems (XmpProps.C03: C03_finish_wf, C03_sequences, C03_sequences_own, C03_scan_loop_fuel, "
+         "C03_finish_rc, C03_names, C03_nonneg, C03_helpers_*) prove for ARBITRARY raw modules left behind by a format loader that whenever the common post-load path of "
          "load_module (sanity gate, libxmp_adjust_string, libxmp_load_epilogue, libxmp_prepare_scan, libxmp_scan_sequences with "
          "scan_module abstract) succeeds, the module satisfies the clauses of C03 that this path is responsible for (counts within "
          "limits, every pattern present with valid present tracks, rst/spd/bpm ranges, envelope upper bounds and volume-envelope "
@@ -45,7 +45,8 @@ MANIFEST = dict(
     design_ref="DESIGN.md section 4 C03",
 )
 
-REQUIRED = ["Xmp.LoadPost.C03_finish_wf", "Xmp.LoadPost.C03_sequences", "Xmp.LoadPost.C03_finish_rc",
+REQUIRED = ["Xmp.LoadPost.C03_finish_wf", "Xmp.LoadPost.C03_sequences", "Xmp.LoadPost.C03_sequences_own",
+            "Xmp.LoadPost.C03_scan_loop_fuel", "Xmp.LoadPost.C03_finish_rc",
             "Xmp.LoadPost.C03_names", "Xmp.LoadPost.C03_nonneg", "Xmp.LoadPost.C03_helpers_track",
             "Xmp.LoadPost.C03_helpers_pattern", "Xmp.LoadPost.allocSites_known", "Xmp.LoadPost.limits_sane"]
 
